@@ -598,6 +598,14 @@ func c20AlphaBR(rng *rand.Rand, res *core.CaseResult, idx int) {
 
 func genBetaRollout(rng *rand.Rand) (*v1beta1.Rollout, string) {
 	ro := &v1beta1.Rollout{ObjectMeta: genMeta(rng, false)}
+	if gen.Chance(rng, 25) {
+		// a stored object created through v1alpha1 keeps the style annotation in its metadata; the v1beta1 field is the
+		// truth and may have been changed since (the annotation is then stale)
+		if ro.Annotations == nil {
+			ro.Annotations = map[string]string{}
+		}
+		ro.Annotations[v1alpha1.RolloutStyleAnnotation] = gen.Pick(rng, "partition", "Partition", "canary", "Canary", "")
+	}
 	ro.Spec.WorkloadRef = v1beta1.ObjectRef{APIVersion: gen.Pick(rng, "apps/v1", "apps.kruise.io/v1alpha1"), Kind: gen.Pick(rng, "Deployment", "CloneSet"), Name: gen.Pick(rng, "echo", "w")}
 	ro.Spec.Disabled = gen.Chance(rng, 20)
 	ro.Spec.Strategy.Paused = gen.Chance(rng, 20)
